@@ -214,10 +214,14 @@ pub fn observe(ops: &[Op]) -> String {
                 }
             }
             Op::Has { kty, dynid } => {
-                let a = shared.has_value_raw(rid(*kty, *dynid));
-                // the typed form must agree for dynamic id 0
-                if *dynid == 0 { let b = with_ty!(*kty, T => shared.has_value::<T>()); if a != b { "p?".into() } else { format!("b{}", a as u8) } }
-                else { format!("b{}", a as u8) }
+                // presence queries borrow nothing: they must answer (and agree) whatever guards are alive
+                let r = catch_unwind(AssertUnwindSafe(|| {
+                    let a = shared.has_value_raw(rid(*kty, *dynid));
+                    // the typed form must agree for dynamic id 0
+                    if *dynid == 0 { let b = with_ty!(*kty, T => shared.has_value::<T>()); if a != b { "p?".to_string() } else { format!("b{}", a as u8) } }
+                    else { format!("b{}", a as u8) }
+                }));
+                match r { Ok(s) => s, Err(p) => panic_kind(&p).into() }
             }
             Op::GetMut { kty, dynid } => {
                 if !enabled { "pe".into() } else {
